@@ -1,4 +1,5 @@
 // C17 - the large-diagonal row permutation is a max-product matching with unit scaling (?ldperm job 5).
+#include <functional>
 #include "drive.hpp"
 #include "isolate.hpp"
 
@@ -79,10 +80,30 @@ template <class T> static void run_T(Choice &c, Ctx &cx)
         int i = (int)S.idx[p];
         if (a != 0 && std::isfinite((double)a)) { nzcols[j].push_back(i); has[i][j] = 1; la(i, j) = std::log(a); maxlog = std::max(maxlog, std::fabs(la(i, j))); }
     }
-    // ties: two stored entries of exactly equal magnitude (class of known finding F-MC64)
-    bool has_tie = false;
+    // ties (class of known finding F-MC64): two stored entries of exactly equal magnitude, or - the same thing one level up -
+    // two partial matchings on the same rows and columns whose products are equal, i.e. an alternating cycle
+    // a(i0,j0) a(i1,j1) ... = a(i0,j1) a(i1,j2) ... (entries of the form m * 2^k with small integers m have many: the
+    // powers of two cancel round the cycle).  MC64's reduced costs then tie although no two entries are equal.  Cycles of up
+    // to four columns are searched depth-first within a fixed step budget; equality is judged in the log domain to 1e-12.
+    bool has_tie = false, product_tie = false;
     { std::vector<LD> mags; for (int j = 0; j < n; ++j) for (int i : nzcols[j]) mags.push_back(la(i, j)); std::sort(mags.begin(), mags.end()); for (size_t k = 1; k < mags.size(); ++k) if (mags[k] == mags[k - 1]) has_tie = true; }
-    cx.label(has_tie ? "ties" : "tie-free");
+    if (!has_tie) {
+        std::vector<std::vector<int>> nzrows(n); for (int j = 0; j < n; ++j) for (int i : nzcols[j]) nzrows[i].push_back(j);
+        long budget = 300000; const LD ctol = 1e-12L * (1 + maxlog);
+        std::vector<char> rused(n, 0), cused(n, 0);
+        std::function<bool(int, int, int, LD)> dfs = [&](int j0, int j, int depth, LD sum) -> bool {
+            for (int i : nzcols[j]) { if (rused[i]) continue; if (--budget < 0) return false;
+                LD s1 = sum + la(i, j); rused[i] = 1;
+                for (int l : nzrows[i]) { if (l == j) continue;
+                    if (l == j0) { if (depth >= 2 && std::fabs(s1 - la(i, l)) <= ctol) { rused[i] = 0; return true; } continue; }
+                    if (l < j0 || cused[l] || depth >= 4) continue;
+                    cused[l] = 1; bool f = dfs(j0, l, depth + 1, s1 - la(i, l)); cused[l] = 0; if (f) { rused[i] = 0; return true; } if (budget < 0) break; }
+                rused[i] = 0; if (budget < 0) return false; }
+            return false; };
+        for (int j0 = 0; j0 < n && !product_tie && budget > 0; ++j0) { cused[j0] = 1; product_tie = dfs(j0, j0, 1, 0); cused[j0] = 0; }
+        if (product_tie) has_tie = true;
+    }
+    cx.label(product_tie ? "product-ties" : has_tie ? "ties" : "tie-free");
     const bool tie_class = has_tie && cx.is_known("F-MC64");
     int msize = max_matching(nzcols, n);
     cx.label(msize == n ? "struct-nonsingular" : "struct-singular");
